@@ -6,13 +6,14 @@ from kv import lib
 PID = "C27"
 META = {
     "level": "model_checking",
-    "text": "TLC explores every sequence of at most 5 steps (Init, Begin(5 mechanisms), Cred(8 credential kinds), optional clock advance) "
+    "text": "TLC explores every sequence of at most 5 steps (Init, Begin(all 7 mechanisms, offered or not), Cred(8 credential kinds), optional clock advance) "
             "of the transcribed auth-session machine (handler selection, start_session, validate_creds, the per-handler factor machines, "
             "the soft-lock consultation) for every credential configuration and validity window, checking the property on every step. "
             "The same step alphabet is then driven, EVERY sequence up to the tier's length, through the real IdmServer::auth on accounts "
             "with real credentials (password, password+TOTP, +backup codes, anonymous, none), and TLC judges every observed answer "
             "(token only after all factors in order in this session, no password-only offer with a second factor, no success outside "
-            "the validity window, nothing accepted after denial/success).",
+            "the validity window, nothing accepted after denial/success -- a Begin naming a mechanism that was not offered counts as a denied step "
+            "whatever the transport answer).",
     "note": "replayed exhaustively: sequences starting with Init of length <=4 (quick) / <=5 (thorough) for in-window accounts of the 4 "
             "credential-bearing configurations, all sequences of length <=2 with any first step, and length <=3 / <=4 for accounts "
             "without credentials, outside the window, or whose window is crossed by a 120 s clock advance at every position. "
@@ -23,7 +24,7 @@ META = {
     "technique": "TLA+ auth-session machine (KAuthSession) model-checked by TLC; exhaustive replay of the step-sequence space on the real IdmServer; TLC trace validation",
 }
 
-ALPHA = 14
+ALPHA = 16
 
 
 def n_init_first(maxlen):
@@ -69,7 +70,7 @@ def run(tier, replay):
     quick = tier == "quick"
     mc = lib.tlc("KAuthSessionMC", cfg="KAuthSessionMC", pid=PID, workers=4 if quick else 8, timeout=1500)
     lib.tlc_must_pass(mc, "auth-session machine L2 vs L1 (all sequences <= 5)")
-    for g in (("ReachTotpSuccess", "ReachCrossWindow") if quick else ("ReachTotpSuccess", "ReachBackupSuccess", "ReachLockedBegin", "ReachCrossWindow")):
+    for g in (("ReachTotpSuccess", "ReachRefusedChoice") if quick else ("ReachTotpSuccess", "ReachBackupSuccess", "ReachLockedBegin", "ReachCrossWindow", "ReachRefusedChoice")):
         r = lib.tlc("KAuthSessionMC", cfg=f"KAuthSessionMC{g}", pid=PID, workers=2, timeout=300)
         if not r["violated"]:
             lib.tool_error(f"vacuity guard {g}: not reachable in the model (log {r['log']})")
